@@ -54,9 +54,7 @@ def o_msm(case):
     r2 = variants(p, 2)
     r0 = variants(p, 0)
     rt = variants(p, True)
-    if rt != r1:
-        raise Fail("true-differs-from-1", f"{ident}: labelmsm=True differs from labelmsm=1")
-    for name, r in (("2", r2), ("0", r0)):
+    for name, r in (("2", r2), ("0", r0), ("True", rt)):
         if [k for k, _ in r] != [k for k, _ in r1]:
             raise Fail("option-changes-attribute-names", f"{ident}: labelmsm={name} changes the attribute list")
         for (k, v1), (_, v) in zip(r1, r):
